@@ -207,6 +207,7 @@ class DbGen:
         self.ascii = ascii_only
         self.n = 0
         self.modes = []               # labelling modes used for the job trees of a 2.3 database
+        self.dangling = []            # classes of dangling references added (imperfect populations)
         self.task_kinds = []          # how each task was recorded (job-only / plain-value / subclass-value / value-only)
 
     def h(self):
@@ -239,9 +240,11 @@ class DbGen:
     def notnull(self, t, c):
         return any(x[0] == c and x[2] for x in self.cols[t])
 
-    def make(self, bad=None):
+    def make(self, bad=None, imperfect=False):
         """Returns name -> list of dict rows (referentially consistent, a forest of jobs).
-        bad: None | 'task' (an invalid lonely task name) | 'orphan' (a job whose parent is missing)."""
+        bad: None | 'task' (an invalid lonely task name) | 'orphan' (a job whose parent is missing).
+        imperfect: add rows that dangle on a declared (SQLite-unenforced-at-the-time) reference, each next to
+        the consistent control rows: the states the non-atomic recording (C03/C22 findings) leaves behind."""
         r = self.rng
         T = {t: [] for t in self.cols}
         tasks = []
@@ -367,6 +370,29 @@ class DbGen:
                                  "is_current": r.choice([0, 1])})
             if len(tg) > 1:
                 T["tag_edit"].append({"parent_id": tg[0], "child_id": tg[1]})
+        if imperfect:
+            classes = ["job->call_node", "argument->call_node", "call_edge->child", "evaluation->value", "tag->entity", "subvalue->parent"]
+            for cl in [c for c in classes if r.random() < 0.6] or [r.choice(classes)]:
+                if cl == "job->call_node":
+                    root = T["job"][0]                   # a root job: the dangling job hangs under it, so its execution is defined
+                    row = dict(root)
+                    row.update(id=f"job-{self.h()[:8]}", parent_id=root["id"], call_hash=self.h())
+                    T["job"].append(row)
+                elif cl == "argument->call_node":
+                    T["argument"].append({"arg_hash": self.h(), "call_hash": self.h(), "value_hash": r.choice(values),
+                                          "arg_position": 0, "arg_key": None})
+                elif cl == "call_edge->child":
+                    T["call_edge"].append({"parent_id": cns[0], "child_id": self.h(), "call_order": 7})
+                elif cl == "evaluation->value" and self.has("evaluation"):
+                    T["evaluation"].append({"eval_hash": self.h(), "task_hash": r.choice(tasks), "args_hash": self.h(), "value_hash": self.h()})
+                elif cl == "tag->entity" and self.has("tag"):
+                    T["tag"].append({"tag_hash": self.h(), "entity_type": "Job", "entity_id": "job-never-stored", "key": "k",
+                                     "value": '"v"', "is_current": 1})
+                elif cl == "subvalue->parent":
+                    T["subvalue"].append({"value_hash": values[-1], "parent_value_hash": self.h()})
+                else:
+                    continue
+                self.dangling.append(cl)
         # respect NOT NULL of whatever schema the current tree builds (a generated NULL is a choice, not a must)
         for t, rows in T.items():
             for row in rows:
@@ -704,14 +730,16 @@ class Check(PropertyCheck):
         return [p]
 
     # ---------------------------------------------------------------- one generated case on the real code
-    def make_case(self, tpl, i, tz, ascii_only, bad=None, tag="c"):
+    def make_case(self, tpl, i, tz, ascii_only, bad=None, tag="c", imperfect=False):
         """Build, populate, upgrade. Returns dict(before, after, exc, rows, version index, tz)."""
         p = tpl.fresh(i, f"{tag}_{self.rng.randrange(10 ** 9)}.db")
         base = dump(p)
         rows = {}
         if i > 0:
             g = DbGen(self.rng, {t: v["cols"] for t, v in base["tables"].items()}, ascii_only)
-            rows = g.make(bad)
+            rows = g.make(bad, imperfect)
+            for m in g.dangling:
+                self.stat("dangling_reference", m)
             for m in g.modes:
                 self.stat("execution_id_labelling_at_2.3", m)
             for m in g.task_kinds:
@@ -756,7 +784,7 @@ class Check(PropertyCheck):
                     bad = None
                     if i and k == per - 1:
                         bad = "task" if i <= 2 else ("orphan" if i <= 5 else None)
-                    c = self.make_case(tpl, i, tz, ascii_only=True, bad=bad)
+                    c = self.make_case(tpl, i, tz, ascii_only=True, bad=bad, imperfect=(bad is None and k % 2 == 0))
                     env = f"{{| e_dialect := Sqlite; e_tz := fun s => (s - ({off}))%Z; e_now := NOW |}}"
                     try:
                         b_lit = cq_db(c["before"]["tables"], c["before"]["indexes"], c["before"]["rev"])
@@ -811,7 +839,14 @@ class Check(PropertyCheck):
     def check_case(self, c):
         """Decide the property on one upgraded database; returns list of (key, what)."""
         if c["exc"] is not None:
-            return [(f"upgrade-raises:{type(c['exc']).__name__}", f"upgrade raised {type(c['exc']).__name__}: {str(c['exc'])[:200]}")]
+            out = [(f"upgrade-raises:{type(c['exc']).__name__}", f"upgrade raised {type(c['exc']).__name__}: {str(c['exc'])[:200]}")]
+            # a failed upgrade must at least be repeatable: the second load() may fail for the same reason, but not
+            # because the first attempt left a half-migrated schema behind
+            again = real_upgrade(c["path"], c["tz"])
+            if again is not None and re.search(r"already exists|duplicate column|no such (table|column)", str(again)):
+                out.append((f"half-migrated-after-failure:{type(again).__name__}",
+                            f"a second load() after the failed upgrade finds a half-migrated schema: {str(again)[:200]}"))
+            return out
         bad = compare_data(c["before"], c["after"], c["tz"], self.crossed(c["i"]))
         why = library_accepts(c["path"])
         if why:
@@ -842,6 +877,16 @@ class Check(PropertyCheck):
             b.migrate(all_versions()[i - 1])
         finally:
             close_backend(b)
+        # what an interrupted recording leaves behind (C03/C22): a job whose call node was never stored
+        con = sqlite3.connect(p)
+        jc = [x[1] for x in con.execute('pragma table_info("job")')]
+        rootrow = con.execute("select * from job where parent_id is null limit 1").fetchone()
+        if rootrow is not None:
+            row = dict(zip(jc, rootrow))
+            row.update(id="job-interrupted", parent_id=row["id"], call_hash="f" * 40)
+            con.execute(f'insert into job ({",".join(jc)}) values ({",".join("?" * len(jc))})', [row[x] for x in jc])
+            con.commit()
+        con.close()
         before = dump(p)
         res1, calls1 = run_workflow(p, root)       # load() upgrades automatically
         after = dump(p)
@@ -884,7 +929,7 @@ class Check(PropertyCheck):
                 # 2.3 is the only start with a nullable, partly filled execution_id: more populations there
                 for k in range(per * 3 if i == self.i23() else per):
                     tz = self.rng.choice([z for z, _ in FIXED_ZONES] + DST_ZONES)
-                    c = self.make_case(tpl, i, tz, ascii_only=False, tag="o")
+                    c = self.make_case(tpl, i, tz, ascii_only=False, tag="o", imperfect=(k % 2 == 1))
                     n += 1
                     self.count(("oracle", i, tz, json.dumps(c["rows"], sort_keys=True, default=repr)), n=0)
                     self.stat("oracle_zone", tz)
